@@ -541,7 +541,15 @@ def run(sc: Dict[str, Any], cache: Optional[Dict[str, Any]] = None) -> Dict[str,
             out = m(xs[0])
             loss = (out - 0.3).square().mean()
             loss.backward()
+        # bounded step: generic weights stay generic (an exploding step would fill the model with inf / nan, on which
+        # "equal" means nothing)
+        torch.nn.utils.clip_grad_norm_([p for p in params if p.grad is not None], 1.0)
+        for p in params:
+            if p.grad is not None and not bool(torch.isfinite(p.grad).all()):
+                p.grad = torch.zeros_like(p.grad)
         opt.step()
+        if not all(bool(torch.isfinite(p).all()) for p in m.parameters()):
+            raise tlc.MachineryError("SGD step of the harness produced non-finite parameters")
         for p in m.parameters():
             p.grad = None
         after = [r_["layer"].weight.detach() for r_ in recs.values() if r_["kind"] in ("conv", "lin")]
